@@ -346,7 +346,7 @@ func concWorker(r *vk.Run, job *concJob) {
 			pcs = append(pcs, pc)
 		}
 	}
-	u := buildUniverse(!r.Quick(), pcs)
+	u := buildUniverse(pcs)
 	vk.WorkerLoop(len(job.Cases), func(i int) interface{} {
 		sc := byName[job.Cases[i].Scenario]
 		res := &concResult{ByCost: map[int]int{}, Finals: map[string]int{}}
